@@ -13,6 +13,7 @@ package otp
 //@   ensures r == d
 
 //@ func otp.truncate(sum, mod) (r)
+//@   reveal dt31
 //@   requires len(sum) >= 20 && mod != 0
 //@   split sum[len(sum)-1] % 16 in 0..15
 //@   ensures r == dt31(view(sum)) % mod
@@ -168,12 +169,13 @@ package otp
 //@ |   (c.IncludeTimestamp ==> len(in.Timestamp) == 8)
 
 // the message layout of RFC 6287 section 5.1/6: suite, 0x00, then the selected fields in fixed order
-//@ macro ocramsg(c, in) = cat(c.Raw, single(0),
-//@ |   c.IncludeCounter ? padr(view(in.Counter), 8) : "",
-//@ |   c.IncludeChallenge ? padr(view(in.Challenge), 128) : "",
-//@ |   c.IncludePassword ? view(in.Password) : "",
-//@ |   c.IncludeSession ? padr(view(in.SessionInfo), 128) : "",
-//@ |   c.IncludeTimestamp ? padr(view(in.Timestamp), 8) : "")
+// (built up field by field, left-nested as the code does)
+//@ macro ocram0(c, in) = cat(c.Raw, single(0))
+//@ macro ocram1(c, in) = cat(ocram0(c, in), c.IncludeCounter ? padr(view(in.Counter), 8) : "")
+//@ macro ocram2(c, in) = cat(ocram1(c, in), c.IncludeChallenge ? padr(view(in.Challenge), 128) : "")
+//@ macro ocram3(c, in) = cat(ocram2(c, in), c.IncludePassword ? view(in.Password) : "")
+//@ macro ocram4(c, in) = cat(ocram3(c, in), c.IncludeSession ? padr(view(in.SessionInfo), 128) : "")
+//@ macro ocramsg(c, in) = cat(ocram4(c, in), c.IncludeTimestamp ? padr(view(in.Timestamp), 8) : "")
 
 //@ func otp.challengeLength(format) (r)
 //@   ensures r == minq(format)
@@ -206,5 +208,46 @@ package otp
 //@   label result mac
 //@   dyntypes s in SuiteConfig, RawSuite
 //@   let cfg = suitecfg(s)
+//@   assert msg 3 : view(msg) == ocram0(cfg, input)
+//@   assert msg 5 : view(msg) == ocram1(cfg, input)
+//@   assert msg 7 : view(msg) == ocram2(cfg, input)
+//@   assert msg 9 : view(msg) == ocram3(cfg, input)
+//@   assert msg 11 : view(msg) == ocram4(cfg, input)
+//@   assert msg 13 : view(msg) == ocramsg(cfg, input)
+//@   assert mac 1 : ishmac(mac) && hmacalg(mac) == cfg.Hash && hmackey(mac) == view(secret) && hmacmsg(mac) == ""
+//@   assert sum 1 : view(sum) == HMAC(cfg.Hash, view(secret), ocramsg(cfg, input))
+//@   assert otp 1 : otp == dt31(HMAC(cfg.Hash, view(secret), ocramsg(cfg, input))) % pow10(cfg.Digits)
 //@   ensures[rfc6287] usable(cfg) && admissible(cfg, input) ==> err == nil && code == otpcode(cfg.Hash, view(secret), ocramsg(cfg, input), cfg.Digits)
 //@   ensures[reject] !(usable(cfg) && admissible(cfg, input)) ==> err != nil && code == ""
+
+//@ func otp.GenerateOCRA(secret, suite, input) (code, err)
+//@   label secret key
+//@   dyntypes suite in SuiteConfig, RawSuite
+//@   let cfg = suitecfg(suite)
+//@   ensures[rfc6287] b32ok(secret) && usable(cfg) && admissible(cfg, input) ==> err == nil && code == otpcode(cfg.Hash, b32key(secret), ocramsg(cfg, input), cfg.Digits)
+//@   ensures[reject] !(b32ok(secret) && usable(cfg) && admissible(cfg, input)) ==> err != nil && code == ""
+
+//@ func otp.validateRFC6287$1() (s, err)
+//@   label secret key
+//@   label result mac
+//@   dyntypes suite in SuiteConfig, RawSuite
+//@   let cfg = suitecfg(suite)
+//@   ensures[rfc6287] usable(cfg) && admissible(cfg, input) ==> err == nil && s == otpcode(cfg.Hash, view(secret), ocramsg(cfg, input), cfg.Digits)
+//@   ensures[reject] !(usable(cfg) && admissible(cfg, input)) ==> err != nil && s == ""
+
+//@ func otp.validateRFC6287(code, secret, suite, input) (ok, err)
+//@   label code usr
+//@   label secret key
+//@   label result clean
+//@   dyntypes suite in SuiteConfig, RawSuite
+//@   let cfg = suitecfg(suite)
+//@   ensures[iff] ok <==> (usable(cfg) && admissible(cfg, input) && len(code) == cfg.Digits && code == otpcode(cfg.Hash, view(secret), ocramsg(cfg, input), cfg.Digits))
+//@   ensures[verdict] (ok && err == nil) || (!ok && err != nil)
+
+//@ func otp.ValidateOCRA(secret, code, suite, input) (ok, err)
+//@   label code usr
+//@   label secret key
+//@   dyntypes suite in SuiteConfig, RawSuite
+//@   let cfg = suitecfg(suite)
+//@   ensures[iff] ok <==> (b32ok(secret) && usable(cfg) && admissible(cfg, input) && len(code) == cfg.Digits && code == otpcode(cfg.Hash, b32key(secret), ocramsg(cfg, input), cfg.Digits))
+//@   ensures[verdict] (ok && err == nil) || (!ok && err != nil)
